@@ -82,8 +82,10 @@ with arg :=
 | ArgExpr (es : list event).
 
 Record fdef := { f_name : name; f_params : list name; f_body : list event }.
-(* a Go function of ParserConfig.Funcs: reflect NumIn and IsVariadic *)
-Record native := { n_name : name; n_in : Z; n_variadic : bool }.
+(* an entry of ParserConfig.Funcs: whether reflect.TypeOf of the value is a
+   Func at all (false: nil or any other kind), and for a function its NumIn and
+   IsVariadic *)
+Record native := { n_name : name; n_in : Z; n_variadic : bool; n_func : bool }.
 Record program := { p_natives : list native; p_funcs : list fdef; p_main : list event }.
 
 (* The effects of mainVisitor.Visit on one UserCallExpr, in the order they
@@ -191,6 +193,7 @@ Inductive rerr :=
 | ECallLocal (f : name)                 (* can't call local variable %q as function *)
 | EUndefined (f : name)                 (* undefined function %q *)
 | ETooManyArgs (f : name)               (* %q called with more arguments than declared *)
+| ENotFunc (f : name)                   (* native function %q is not a function *)
 | EUse (have : ty) (v : name) (want : ty)     (* can't use %s %q as %s *)
 | EPassVar (have : ty) (v : name) (want : ty) (* can't pass %s %q as %s param *)
 | EPassExpr                             (* can't pass scalar %s as array param *)
@@ -253,8 +256,10 @@ Definition visit_step (P : program) (cur : name) (s : state) (st : step) : rres 
            | Some fi =>
                if fi_native fi then
                  match find_native (p_natives P) f with
-                 | None => RPanic             (* reflect.TypeOf(nil).NumIn() *)
+                 | None => RErr (ENotFunc f)  (* typ == nil *)
                  | Some nt =>
+                     if negb (n_func nt) then RErr (ENotFunc f)   (* typ == nil || typ.Kind() != reflect.Func *)
+                     else
                      let numParams := if n_variadic nt then 1000000000 else n_in nt in
                      if numParams <? nargs then RErr (ETooManyArgs f) else ROk s
                  end
@@ -348,6 +353,28 @@ Fixpoint pass_loop (P : program) (order : list name) (k : nat) (s : state) (upda
        | RFuel => RFuel
        end.
 
+(* resolver.numVars: the number of variables recorded so far *)
+Definition num_vars (s : state) : Z := zlen (st_vars s).
+
+(* The pass loop of Resolve as it is now:
+     for i := 0; r.updates != updates; i++ { updates = r.updates; walkOrdered;
+       if i >= 2*r.numVars() { panic } }
+   [fuel] is the model's own ([pass_fuel] below); the loop with a constant limit
+   above ([pass_loop]) is what the code was before and is kept for comparison. *)
+Fixpoint pass_loop_dyn (P : program) (order : list name) (fuel : nat) (i : Z) (s : state) (updates : Z) : rres state :=
+  if st_updates s =? updates then ROk s
+  else match walk_ordered P order s with
+       | ROk s' =>
+           if 2 * num_vars s' <=? i then RErr ETooManyIter
+           else match fuel with
+                | O => RFuel
+                | S fuel' => pass_loop_dyn P order fuel' (i + 1) s' (st_updates s)
+                end
+       | RErr e => RErr e
+       | RPanic => RPanic
+       | RFuel => RFuel
+       end.
+
 (* ---------- the result ------------------------------------------------ *)
 
 Definition default_ty (t : ty) : ty := match t with TUnknown => TScalar | _ => t end.
@@ -400,10 +427,42 @@ Definition resolve_order (cut : nat) (order : list name) (P : program) : rres fi
       ROk (finalize P s5))))))
   end.
 
+(* every key the table can ever hold: the parameters, and a global for every
+   name that occurs as a variable or a parameter; twice their number bounds the
+   number of passes, which gives the model's fuel *)
+Definition step_names (st : step) : list name :=
+  match st with SUse v _ => [v] | SArgVar _ _ v => [v] | _ => [] end.
+Definition all_names (P : program) : list name :=
+  [n_ARGV; n_ENVIRON; n_FIELDS] ++ flat_map f_params (p_funcs P)
+  ++ flat_map (fun fd => flat_map step_names (flat_events (f_body fd))) (p_funcs P)
+  ++ flat_map step_names (flat_events (p_main P)).
+Definition table_keys (P : program) : list key :=
+  flat_map (fun fd => List.map (fun p => (f_name fd, p)) (f_params fd)) (p_funcs P)
+  ++ List.map (fun v => ([], v)) (all_names P).
+Definition pass_fuel (P : program) : nat := S (2 * length (table_keys P)).
+
+(* resolver.Resolve after the call graph has been ordered, as it is now *)
+Definition resolve_order_impl (order : list name) (P : program) : rres final :=
+  match first_dup [] (fnames P) with
+  | Some f => RErr (EAlreadyDefined f)
+  | None =>
+      let s0 := {| st_vars := init_vars P; st_updates := 0 |} in
+      rbind2 (record_var P s0 [] n_ARGV TArray) (fun s1 =>
+      rbind2 (record_var P s1 [] n_ENVIRON TArray) (fun s2 =>
+      rbind2 (record_var P s2 [] n_FIELDS TArray) (fun s3 =>
+      let updates := st_updates s3 in
+      rbind2 (walk_ordered P order s3) (fun s4 =>
+      rbind2 (pass_loop_dyn P order (pass_fuel P) 0 s4 updates) (fun s5 =>
+      ROk (finalize P s5))))))
+  end.
+
 (* ---------- call graph and topoSort ----------------------------------- *)
 
-(* Go map iteration order: every `for ... range m` asks the oracle, with a
-   fresh counter value, in which order the keys come. *)
+(* The order in which a collection of names is gone through: every such place
+   asks the oracle, with a fresh counter value, in which order the names come.
+   The code went through Go maps (any order); it now sorts the names first
+   ([name_order_oracle] below).  The theorems hold for every oracle that
+   returns a permutation. *)
 Definition oracle := nat -> list name -> list name.
 
 Definition graph := list (name * list name).
@@ -516,7 +575,24 @@ Definition resolve_cut (cut : nat) (pi : oracle) (P : program) : rres final :=
       | Some order => resolve_order cut order P
       end
   end.
-Definition resolve (pi : oracle) (P : program) : rres final := resolve_cut cutoff pi P.
+(* resolver.Resolve.  [pi] says in which order a collection of names is gone
+   through; the code now sorts ([name_order_oracle]), the theorems hold for
+   every order.  ([resolve_cut] is the resolver with the constant limit it had
+   before; the two agree for every sufficiently large constant.) *)
+Definition resolve (pi : oracle) (P : program) : rres final :=
+  match first_dup [] (fnames P) with
+  | Some f => RErr (EAlreadyDefined f)
+  | None =>
+      match ordered_funcs pi P with
+      | None => RFuel
+      | Some order => resolve_order_impl order P
+      end
+  end.
+
+(* toposort.go and Resolve sort the nodes, the successors and the unreached
+   functions by name before going through them *)
+Definition name_order_oracle : oracle := fun _ l => sort_names l.
+Definition resolve_impl (P : program) : rres final := resolve name_order_oracle P.
 
 (* executable oracles for the model runner: rotate (and reverse) by a seed *)
 Fixpoint rotate {A} (n : nat) (l : list A) : list A :=
@@ -659,7 +735,7 @@ Definition wf_step (P : program) (cur : name) (st : step) : bool :=
           if fi_native fi then
             match find_native (p_natives P) f with
             | None => false
-            | Some nt => negb ((if n_variadic nt then 1000000000 else n_in nt) <? nargs)
+            | Some nt => n_func nt && negb ((if n_variadic nt then 1000000000 else n_in nt) <? nargs)
             end
           else negb (zlen (fi_params fi) <? nargs)
       end
